@@ -91,8 +91,25 @@ def make_actor(state: ActorState, actor_name: str, *, with_msg_dep=False, deps=N
                         msg.add_callback(_cb)
                 how = "eager:" + e["call"]
                 rec.note("eager_call", jid, call=e["call"], attempt=n)
-                await getattr(msg, e["call"])()
+                if e.get("guard"):
+                    # defensive user code around the eager response: `except Exception` must not intercept it
+                    try:
+                        await getattr(msg, e["call"])()
+                    except Exception:  # noqa: BLE001
+                        rec.note("eager_response_intercepted", jid)
+                        if e["guard"] == "fallback":
+                            await msg.nack()
+                else:
+                    await getattr(msg, e["call"])()
                 rec.note("after_eager", jid)  # must be unreachable
+            if do == "cancelled-inside":
+                # the body awaits an inner task which gets cancelled: the invocation ends with CancelledError although
+                # nobody cancelled the worker's own task
+                how = "cancelled-inside"
+                inner = asyncio.ensure_future(asyncio.sleep(3600))
+                await asyncio.sleep(0)
+                inner.cancel()
+                await inner
             if do == "bad-return":
                 # the body ends normally but its value cannot be encoded by any converter: an ordinary failure
                 how = "bad-return"
